@@ -283,6 +283,10 @@ func (c *c15Cons) countWrites() {
 	inner := field.Interface().(connection.Connection)
 	c.att = new(int64)
 	field.Set(reflect.ValueOf(&c15CountConn{Connection: inner, n: c.att}))
+	if c.rdStat == nil {
+		// http-flv / http-ts: the session's GetStat does not look at the connection
+		c.rdStat = func() (uint64, uint64) { return inner.GetStat().ReadBytesSum, 0 }
+	}
 }
 
 // rtsp: does a packet with this payload go to the command connection
@@ -443,7 +447,6 @@ func newC15Cons(spec string, capacity int) *c15Cons {
 		c.dispose = func() { _ = s.Dispose() }
 		// logic.HttpServerHandler.ServeSubSession: RunLoop, then (OnDel and) Dispose
 		c.startRd = func() { go func() { _ = s.RunLoop(); _ = s.Dispose() }() }
-		c.rdStat = func() (uint64, uint64) { return s.GetStat().ReadBytesSum, 0 }
 	case "ts", "wsts":
 		old := httpts.SubSessionWriteChanSize
 		httpts.SubSessionWriteChanSize = capacity
@@ -454,7 +457,6 @@ func newC15Cons(spec string, capacity int) *c15Cons {
 		c.isAlive = func() bool { _, w := s.IsAlive(); return w }
 		c.dispose = func() { _ = s.Dispose() }
 		c.startRd = func() { go func() { _ = s.RunLoop(); _ = s.Dispose() }() }
-		c.rdStat = func() (uint64, uint64) { return s.GetStat().ReadBytesSum, 0 }
 	case "rtp", "wsrtp":
 		old := rtsp.VerifC15SetCmdWriteChanSize(capacity)
 		cmd := rtsp.NewServerCommandSession(nil, c.conn, rtsp.ServerAuthConfig{}, kind == "wsrtp", "key")
